@@ -330,6 +330,7 @@ Verdict prop(Tape& t, Run& run) {
 		o.mesh.maxVerts = 60;
 		o.mesh.maxTris = 120;
 		o.mesh.minTris = 1;
+		o.mesh.duplicateTriangleSometimes = true; // an exact duplicate is one more triangle of the set to keep
 		o.mesh.allowUnusedVerts = t.chance(48);
 		o.allowLockedNorm = false;
 		o.maxBones = 6;
